@@ -69,82 +69,119 @@ func ns(t time.Time) int64 {
 	return t.UnixNano()
 }
 
+// ---------------------------------------------------------------- rendering of abstract values
+
+func rAcct(a authexp.Account) string {
+	m := "-"
+	if ma, ok := a.(authexp.ModuleAccountI); ok {
+		m = ma.GetName()
+	}
+	hp := 0
+	if a.GetPubKey() != nil {
+		hp = 1
+	}
+	other := 0
+	for _, c := range a.GetCoins() {
+		if c.Denom != sdk.DefaultStakeDenom {
+			other = 1
+		}
+	}
+	return fmt.Sprintf("%s:%s:%s:%d:%d", a.GetAddress(), a.GetCoins().AmountOf(sdk.DefaultStakeDenom), m, hp, other)
+}
+
+func esc(s string) string {
+	return strings.NewReplacer(":", "%3A", ";", "%3B", " ", "%20", "|", "%7C", "=", "%3D", "+", "%2B").Replace(s)
+}
+
+func rNode(v nodesTypes.Validator) string {
+	j := 0
+	if v.Jailed {
+		j = 1
+	}
+	var ds []string
+	for _, k := range chain.SortedKeys(v.RewardDelegators) {
+		ds = append(ds, fmt.Sprintf("%s=%d", k, v.RewardDelegators[k]))
+	}
+	out := "-"
+	if v.OutputAddress != nil {
+		out = v.OutputAddress.String()
+	}
+	return fmt.Sprintf("%s:%d:%d:%s:%d:%s:%s:%s:%s", v.Address, int(v.Status), j, v.StakedTokens, ns(v.UnstakingCompletionTime), orDash(out),
+		orDash(strings.Join(v.Chains, "+")), orDash(strings.Join(ds, "+")), esc(v.ServiceURL))
+}
+
+func rApp(a appsTypes.Application) string {
+	j := 0
+	if a.Jailed {
+		j = 1
+	}
+	mr := a.MaxRelays.String()
+	if mr == "<nil>" {
+		mr = "0"
+	}
+	return fmt.Sprintf("%s:%s:%d:%d:%s:%s:%d:%s", a.Address, a.PublicKey.RawString(), int(a.Status), j, a.StakedTokens, mr, ns(a.UnstakingCompletionTime), orDash(strings.Join(a.Chains, "+")))
+}
+
+func rClaim(c pcTypes.MsgClaim) string {
+	return fmt.Sprintf("%s:%s:%s:%d:%x:%d:%d:%d:%d", c.FromAddress, c.SessionHeader.ApplicationPubKey, c.SessionHeader.Chain, c.SessionHeader.SessionBlockHeight,
+		c.MerkleRoot.Hash, c.MerkleRoot.Range.Upper, c.TotalProofs, int(c.EvidenceType), c.ExpirationHeight)
+}
+
+func rSign(a sdk.Address, i nodesTypes.ValidatorSigningInfo) string {
+	return fmt.Sprintf("%s:%d:%d:%d:%d:%d", a, i.StartHeight, i.Index, i.JailedUntil.UnixNano(), i.MissedBlocksCounter, i.JailedBlocksCounter)
+}
+
+func joinSorted(xs []string) string {
+	sort.Strings(xs)
+	return orDash(strings.Join(xs, ";"))
+}
+
+// paramWords renders stored parameters as one word per subspace: params-<subspace> <Key>:<hex(raw JSON)>;…
+func paramWords(kv map[string]string) []string {
+	by := map[string][]string{}
+	for _, k := range chain.SortedKeys(kv) {
+		p := strings.SplitN(k, "/", 2)
+		by[p[0]] = append(by[p[0]], fmt.Sprintf("%s:%x", p[1], kv[k]))
+	}
+	var out []string
+	for _, m := range []string{"auth", "pos", "application", "pocketcore", "gov"} {
+		out = append(out, "params-"+m+" "+joinSorted(by[m]))
+	}
+	return out
+}
+
 // dump renders the abstract state of a node, one "component value" line per component.
 func dump(n *chain.Node, ctx sdk.Context) []string {
 	cdc := n.App.VerifCodec()
 	ak, nk, apk, pk, gk := n.App.VerifAccountKeeper(), n.App.VerifNodesKeeper(), n.App.VerifAppsKeeper(), n.App.VerifPocketKeeper(), n.App.VerifGovKeeper()
 	var out []string
-	// accounts: addr:upokt:module:haspub
 	var as []string
 	for _, a := range ak.GetAllAccounts(ctx) {
-		m := "-"
-		if ma, ok := a.(authexp.ModuleAccountI); ok {
-			m = ma.GetName()
-		}
-		hp := 0
-		if a.GetPubKey() != nil {
-			hp = 1
-		}
-		other := 0
-		for _, c := range a.GetCoins() {
-			if c.Denom != sdk.DefaultStakeDenom {
-				other = 1
-			}
-		}
-		as = append(as, fmt.Sprintf("%s:%s:%s:%d:%d", a.GetAddress(), a.GetCoins().AmountOf(sdk.DefaultStakeDenom), m, hp, other))
+		as = append(as, rAcct(a))
 	}
-	sort.Strings(as)
-	out = append(out, "accounts "+orDash(strings.Join(as, ";")))
+	out = append(out, "accounts "+joinSorted(as))
 	out = append(out, "supply "+ak.GetSupply(ctx).GetTotal().AmountOf(sdk.DefaultStakeDenom).String())
-	// nodes: addr:status:jailed:tokens:unst:output:chains:delegators:url
 	var vs []string
 	for _, v := range nk.GetAllValidators(ctx) {
-		j := 0
-		if v.Jailed {
-			j = 1
-		}
-		var ds []string
-		for _, k := range chain.SortedKeys(v.RewardDelegators) {
-			ds = append(ds, fmt.Sprintf("%s=%d", k, v.RewardDelegators[k]))
-		}
-		out := "-"
-		if v.OutputAddress != nil {
-			out = v.OutputAddress.String()
-		}
-		vs = append(vs, fmt.Sprintf("%s:%d:%d:%s:%d:%s:%s:%s:%s", v.Address, int(v.Status), j, v.StakedTokens, ns(v.UnstakingCompletionTime), orDash(out),
-			orDash(strings.Join(v.Chains, "+")), orDash(strings.Join(ds, "+")), strings.ReplaceAll(strings.ReplaceAll(v.ServiceURL, ":", "%3A"), ";", "%3B")))
+		vs = append(vs, rNode(v))
 	}
-	sort.Strings(vs)
-	out = append(out, "nodes "+orDash(strings.Join(vs, ";")))
-	// apps
+	out = append(out, "nodes "+joinSorted(vs))
 	var aps []string
 	for _, a := range apk.GetAllApplications(ctx) {
-		j := 0
-		if a.Jailed {
-			j = 1
-		}
-		mr := a.MaxRelays.String()
-		if mr == "<nil>" {
-			mr = "0"
-		}
-		aps = append(aps, fmt.Sprintf("%s:%s:%d:%d:%s:%s:%d:%s", a.Address, a.PublicKey.RawString(), int(a.Status), j, a.StakedTokens, mr, ns(a.UnstakingCompletionTime), orDash(strings.Join(a.Chains, "+"))))
+		aps = append(aps, rApp(a))
 	}
-	sort.Strings(aps)
-	out = append(out, "apps "+orDash(strings.Join(aps, ";")))
-	// params (canonical JSON per module, spaces removed)
-	pj := func(v interface{}) string {
-		b, _ := cdc.MarshalJSON(v)
-		return strings.ReplaceAll(string(sdk.MustSortJSON(b)), " ", "")
+	out = append(out, "apps "+joinSorted(aps))
+	out = append(out, paramWords(gk.GetAllParamNameValue(ctx))...)
+	var acl []string
+	for _, p := range gk.GetACL(ctx) {
+		acl = append(acl, p.Key)
 	}
-	out = append(out, "params auth="+pj(ak.GetParams(ctx))+" pos="+pj(nk.GetParams(ctx))+" application="+pj(apk.GetParams(ctx))+" pocketcore="+pj(pk.GetParams(ctx))+" gov="+pj(gk.GetParams(ctx)))
-	// pending claims
+	out = append(out, "acl "+joinSorted(acl))
 	var cs []string
 	for _, c := range pk.GetAllClaims(ctx) {
-		cs = append(cs, fmt.Sprintf("%s:%s:%s:%d:%x:%d:%d:%d:%d", c.FromAddress, c.SessionHeader.ApplicationPubKey, c.SessionHeader.Chain, c.SessionHeader.SessionBlockHeight,
-			c.MerkleRoot.Hash, c.MerkleRoot.Range.Upper, c.TotalProofs, int(c.EvidenceType), c.ExpirationHeight))
+		cs = append(cs, rClaim(c))
 	}
-	sort.Strings(cs)
-	out = append(out, "claims "+orDash(strings.Join(cs, ";")))
+	out = append(out, "claims "+joinSorted(cs))
 	out = append(out, "dao "+gk.GetDAOTokens(ctx).String())
 	// decoded index prefixes of the pos store
 	pos := ctx.KVStore(n.App.Keys[nodesTypes.StoreKey])
@@ -156,79 +193,120 @@ func dump(n *chain.Node, ctx sdk.Context) []string {
 			f(it.Key(), it.Value())
 		}
 	}
-	iter(pos, nodesTypes.StakedValidatorsKey, func(k, v []byte) {
-		if len(k) == 1+8+sdk.AddrLen {
-			ad := make([]byte, sdk.AddrLen)
-			for i, b := range k[9:] {
-				ad[i] = ^b
+	staked := func(tag string, dst *[]string) func(k, v []byte) {
+		return func(k, v []byte) {
+			if len(k) == 1+8+sdk.AddrLen {
+				ad := make([]byte, sdk.AddrLen)
+				for i, b := range k[9:] {
+					ad[i] = ^b
+				}
+				*dst = append(*dst, fmt.Sprintf("staked/%d/%x/%x", binary.BigEndian.Uint64(k[1:9]), ad, v))
+			} else {
+				*dst = append(*dst, fmt.Sprintf("staked/BAD%x", k))
 			}
-			ni = append(ni, fmt.Sprintf("staked/%d/%x=%x", binary.BigEndian.Uint64(k[1:9]), ad, v))
-		} else {
-			ni = append(ni, fmt.Sprintf("staked/BAD%x", k))
 		}
-	})
-	iter(pos, nodesTypes.StakedValidatorsByNetIDKey, func(k, v []byte) { ni = append(ni, fmt.Sprintf("chain/%x=%x", k[1:], v)) })
-	iter(pos, nodesTypes.UnstakingValidatorsKey, func(k, v []byte) {
-		tm, err := sdk.ParseTimeBytes(k[1:])
-		var addrs sdk.Addresses
-		err2 := cdc.UnmarshalBinaryLengthPrefixed(v, &addrs, ctx.BlockHeight())
-		if err != nil || err2 != nil {
-			ni = append(ni, fmt.Sprintf("unstaking/BAD%x", k))
-			return
+	}
+	queue := func(dst *[]string) func(k, v []byte) {
+		return func(k, v []byte) {
+			tm, err := sdk.ParseTimeBytes(k[1:])
+			var addrs sdk.Addresses
+			err2 := cdc.UnmarshalBinaryLengthPrefixed(v, &addrs, ctx.BlockHeight())
+			if err != nil || err2 != nil {
+				*dst = append(*dst, fmt.Sprintf("unstaking/BAD%x", k))
+				return
+			}
+			var xs []string
+			for _, a := range addrs {
+				xs = append(xs, a.String())
+			}
+			*dst = append(*dst, fmt.Sprintf("unstaking/%d/%s", ns(tm), strings.Join(xs, "+")))
 		}
-		var xs []string
-		for _, a := range addrs {
-			xs = append(xs, a.String())
-		}
-		ni = append(ni, fmt.Sprintf("unstaking/%d=%s", ns(tm), strings.Join(xs, "+")))
-	})
+	}
+	iter(pos, nodesTypes.StakedValidatorsKey, staked("staked", &ni))
+	iter(pos, nodesTypes.StakedValidatorsByNetIDKey, func(k, v []byte) { ni = append(ni, fmt.Sprintf("chain/%x/%x", k[1:len(k)-sdk.AddrLen], k[len(k)-sdk.AddrLen:])) })
+	iter(pos, nodesTypes.UnstakingValidatorsKey, queue(&ni))
 	iter(pos, nodesTypes.WaitingToBeginUnstakingKey, func(k, v []byte) { ni = append(ni, fmt.Sprintf("waiting/%x", k[1:])) })
-	out = append(out, "nodeidx "+orDash(strings.Join(ni, ";")))
-	// decoded index prefixes of the application store
+	out = append(out, "nodeidx "+joinSorted(ni))
 	ap := ctx.KVStore(n.App.Keys[appsTypes.StoreKey])
 	var ai []string
-	iter(ap, appsTypes.StakedAppsKey, func(k, v []byte) {
-		if len(k) == 1+8+sdk.AddrLen {
-			ad := make([]byte, sdk.AddrLen)
-			for i, b := range k[9:] {
-				ad[i] = ^b
-			}
-			ai = append(ai, fmt.Sprintf("staked/%d/%x=%x", binary.BigEndian.Uint64(k[1:9]), ad, v))
-		} else {
-			ai = append(ai, fmt.Sprintf("staked/BAD%x", k))
-		}
-	})
-	iter(ap, appsTypes.UnstakingAppsKey, func(k, v []byte) {
-		tm, err := sdk.ParseTimeBytes(k[1:])
-		var addrs sdk.Addresses
-		err2 := cdc.UnmarshalBinaryLengthPrefixed(v, &addrs, ctx.BlockHeight())
-		if err != nil || err2 != nil {
-			ai = append(ai, fmt.Sprintf("unstaking/BAD%x", k))
-			return
-		}
-		var xs []string
-		for _, a := range addrs {
-			xs = append(xs, a.String())
-		}
-		ai = append(ai, fmt.Sprintf("unstaking/%d=%s", ns(tm), strings.Join(xs, "+")))
-	})
-	out = append(out, "appidx "+orDash(strings.Join(ai, ";")))
-	// signing infos: addr:start:index:jailedUntil:missed:jailedBlocks
+	iter(ap, appsTypes.StakedAppsKey, staked("staked", &ai))
+	iter(ap, appsTypes.UnstakingAppsKey, queue(&ai))
+	out = append(out, "appidx "+joinSorted(ai))
 	var si []string
 	nk.IterateAndExecuteOverValSigningInfo(ctx, func(a sdk.Address, i nodesTypes.ValidatorSigningInfo) bool {
-		si = append(si, fmt.Sprintf("%s:%d:%d:%d:%d:%d", a, i.StartHeight, i.Index, i.JailedUntil.UnixNano(), i.MissedBlocksCounter, i.JailedBlocksCounter))
+		si = append(si, rSign(a, i))
 		return false
 	})
-	sort.Strings(si)
-	out = append(out, "signing "+orDash(strings.Join(si, ";")))
-	// prev-state powers + total + previous proposer
+	out = append(out, "signing "+joinSorted(si))
 	var pp []string
 	nk.IterateAndExecuteOverPrevStateValsByPower(ctx, func(a sdk.Address, p int64) bool {
 		pp = append(pp, fmt.Sprintf("%s:%d", a, p))
 		return false
 	})
-	sort.Strings(pp)
-	out = append(out, fmt.Sprintf("prevpower total=%s proposer=%s %s", nk.PrevStateValidatorsPower(ctx), orDash(nk.GetPreviousProposer(ctx).String()), orDash(strings.Join(pp, ";"))))
+	out = append(out, "prevpower "+joinSorted(pp))
+	out = append(out, "prevtotal "+nk.PrevStateValidatorsPower(ctx).String())
+	out = append(out, "proposer "+orDash(nk.GetPreviousProposer(ctx).String()))
+	// typed values the model needs: pos StakeMinimum, application params
+	ap2 := apk.GetParams(ctx)
+	po := 0
+	if ap2.ParticipationRateOn {
+		po = 1
+	}
+	out = append(out, fmt.Sprintf("typed %d,%d,%d,%d,%d,%d,%d,%d", nk.GetParams(ctx).StakeMinimum, ap2.AppStakeMin, ap2.MaxChains, ap2.MaxApplications,
+		ap2.BaseRelaysPerPOKT, ap2.StabilityAdjustment, int64(ap2.UnstakingTime), po))
+	return out
+}
+
+// exportWords renders the exported genesis JSON in the same abstract forms ("x-" components).
+func exportWords(gs app.GenesisState) []string {
+	var out []string
+	var ag auth.GenesisState
+	auth.ModuleCdc.MustUnmarshalJSON(gs["auth"], &ag)
+	var as []string
+	for _, a := range ag.Accounts {
+		as = append(as, rAcct(a))
+	}
+	out = append(out, "x-accounts "+joinSorted(as), "x-supply "+ag.Supply.AmountOf(sdk.DefaultStakeDenom).String())
+	var ng nodesTypes.GenesisState
+	nodesTypes.ModuleCdc.MustUnmarshalJSON(gs["pos"], &ng)
+	var vs, pp, si []string
+	for _, v := range ng.Validators {
+		vs = append(vs, rNode(v))
+	}
+	for _, p := range ng.PrevStateValidatorPowers {
+		pp = append(pp, fmt.Sprintf("%s:%d", p.Address, p.Power))
+	}
+	for k, i := range ng.SigningInfos {
+		a, _ := sdk.AddressFromHex(k)
+		si = append(si, rSign(a, i))
+	}
+	ex := 0
+	if ng.Exported {
+		ex = 1
+	}
+	out = append(out, "x-nodes "+joinSorted(vs), "x-prevpower "+joinSorted(pp), "x-prevtotal "+ng.PrevStateTotalPower.String(),
+		"x-signing "+joinSorted(si), "x-proposer "+orDash(ng.PreviousProposer.String()), fmt.Sprintf("x-missed %d", len(ng.MissedBlocks)), fmt.Sprintf("x-exported %d", ex))
+	var apg appsTypes.GenesisState
+	appsTypes.ModuleCdc.MustUnmarshalJSON(gs["application"], &apg)
+	var aps []string
+	for _, a := range apg.Applications {
+		aps = append(aps, rApp(a))
+	}
+	out = append(out, "x-apps "+joinSorted(aps))
+	var pg pcTypes.GenesisState
+	pcTypes.ModuleCdc.MustUnmarshalJSON(gs["pocketcore"], &pg)
+	var cs []string
+	for _, c := range pg.Claims {
+		cs = append(cs, rClaim(c))
+	}
+	out = append(out, "x-claims "+joinSorted(cs))
+	var gg govTypes.GenesisState
+	govTypes.ModuleCdc.MustUnmarshalJSON(gs["gov"], &gg)
+	var acl []string
+	for _, p := range gg.Params.ACL {
+		acl = append(acl, p.Key)
+	}
+	out = append(out, "x-dao "+gg.DAOTokens.String(), "x-acl "+joinSorted(acl))
 	return out
 }
 
@@ -305,11 +383,16 @@ func runExport(hseed uint64, blocks int, dir string, flavour int) {
 		case flavour == 0: // quiet history: empty blocks only (the base case of the round trip)
 			tm = tm.Add(time.Minute)
 			blk = chain.Block{Time: tm, Proposer: w.Vals[r.Intn(len(w.Vals))].Addr, Votes: votes(w, nil)}
-		case flavour == 1 || r.Chance(1, 2): // the shared generator: sends, node + app traffic, gov, dao, evidence
+		case flavour == 1 || r.Chance(1, 2): // the shared generator (flavour 3: without the unstake messages): sends, node + app traffic, gov, dao, evidence
 			var ds []chain.TxDesc
 			blk, ds = w.GenBlock(r, tm, n.Height+1, 4)
 			tm = blk.Time
+			blk.Txs = nil
 			for _, d := range ds {
+				if flavour == 3 && (strings.HasPrefix(d.Kind, "nodeunstake") || strings.HasPrefix(d.Kind, "appunstake")) {
+					continue // histories without unstaking records reach the later init stages
+				}
+				blk.Txs = append(blk.Txs, d.Bytes)
 				descs = append(descs, d.Kind)
 			}
 		default: // application lifecycle
@@ -317,6 +400,9 @@ func runExport(hseed uint64, blocks int, dir string, flavour int) {
 			blk = chain.Block{Time: tm, Proposer: w.Vals[r.Intn(len(w.Vals))].Addr, Votes: votes(w, r)}
 			for i := r.Intn(4); i > 0; i-- {
 				bz, d := h.appTx()
+				if flavour == 3 && strings.HasPrefix(d, "appunstake") {
+					continue
+				}
 				blk.Txs = append(blk.Txs, bz)
 				descs = append(descs, d)
 			}
@@ -345,6 +431,9 @@ func runExport(hseed uint64, blocks int, dir string, flavour int) {
 		panic(err)
 	}
 	must(os.WriteFile(filepath.Join(dir, "export.json"), js, 0o644))
+	var gs app.GenesisState
+	must(json.Unmarshal(js, &gs))
+	must(os.WriteFile(filepath.Join(dir, "x.dump"), []byte(strings.Join(exportWords(gs), "\n")+"\n"), 0o644))
 	must(os.WriteFile(filepath.Join(dir, "a.dump"), []byte(strings.Join(dump(n, n.Ctx()), "\n")+"\n"), 0o644))
 	must(os.WriteFile(filepath.Join(dir, "history.txt"), []byte(strings.Join(h.log, "\n")+"\n"), 0o644))
 }
@@ -452,17 +541,29 @@ func readDump(p string) map[string]string {
 	return m
 }
 
-var components = []string{"accounts", "supply", "nodes", "apps", "params", "claims", "dao", "nodeidx", "appidx", "signing", "prevpower"}
+var components = []string{"accounts", "supply", "nodes", "nodeidx", "signing", "prevpower", "prevtotal", "proposer", "apps", "appidx", "claims",
+	"params-auth", "params-pos", "params-application", "params-pocketcore", "params-gov", "acl", "dao", "typed"}
+
+var xcomponents = []string{"x-accounts", "x-supply", "x-nodes", "x-prevpower", "x-prevtotal", "x-signing", "x-proposer", "x-missed", "x-exported",
+	"x-apps", "x-claims", "x-dao", "x-acl"}
+
+func words(m map[string]string, keys []string) string {
+	var ws []string
+	for _, k := range keys {
+		ws = append(ws, k+"="+orDash(m[k]))
+	}
+	return strings.Join(ws, " ")
+}
 
 func main() {
 	seed := flag.Uint64("seed", 1, "")
 	n := flag.Int("n", 8, "number of histories")
 	out := flag.String("out", "c43.trace", "")
-	role := flag.String("role", "", "internal: export | import")
+	role := flag.String("role", "", "internal: export | import | import2")
 	hseed := flag.Uint64("hseed", 0, "internal: history seed")
-	blocks := flag.Int("blocks", 25, "blocks per history")
+	blocks := flag.Int("blocks", 25, "maximal number of blocks per history")
 	dir := flag.String("dir", "", "internal: history directory")
-	flavour := flag.Int("flavour", -1, "internal: 0 quiet, 1 shared generator, 2 mixed + claims")
+	flavour := flag.Int("flavour", -1, "internal: 0 quiet, 1 shared generator, 2 mixed + claims, 3 mixed without unstaking")
 	keep := flag.Bool("keep", false, "keep the per-history directories")
 	flag.Parse()
 	switch *role {
@@ -481,12 +582,7 @@ func main() {
 	base, _ := filepath.Abs(*out + ".d")
 	for i := 0; i < *n; i++ {
 		hs := r.U64() % 1000000
-		fl := 2
-		if i == 0 {
-			fl = 0
-		} else if i%4 == 1 {
-			fl = 1
-		}
+		fl := []int{0, 3, 2, 3, 1, 3, 2, 3}[i%8]
 		bl := 3 + r.Intn(*blocks)
 		d := filepath.Join(base, fmt.Sprintf("h%d", hs))
 		os.RemoveAll(d)
@@ -497,18 +593,21 @@ func main() {
 		if outp, err := ex.CombinedOutput(); err != nil {
 			panic(fmt.Sprintf("export process failed (%s): %v\n%s", id, err, tail(string(outp))))
 		}
+		a, x := readDump(filepath.Join(d, "a.dump")), readDump(filepath.Join(d, "x.dump"))
+		// the exporting node's state (the driver keeps it for the lines of this history)
+		t.Line("hist", true, "hist %s => %s", id, words(a, components))
+		t.Line("export", true, "export %s => %s", id, words(x, xcomponents))
+		// stage 1: the real InitChain on the exported JSON
 		im := exec.Command(os.Args[0], "-role", "import", "-dir", d)
 		outp, err := im.CombinedOutput()
 		res := "ok"
 		if err != nil {
 			res = "fatal:" + crashClass(string(outp), err)
 		}
-		a := readDump(filepath.Join(d, "a.dump"))
-		t.Line("init/"+strings.SplitN(res, ":", 2)[0], res == "ok", "rt init %s A=%s => %s", id, strings.ReplaceAll(orDash(a["accounts"]), " ", "|"), res)
-		stage := "initchain"
+		t.Line("init/"+strings.SplitN(res, ":", 2)[0], res == "ok", "init %s => %s", id, res)
+		stage := "done"
 		if res != "ok" {
-			// second stage: per-module ValidateGenesis + InitGenesis without the crashing InitChain wrapper
-			stage = "modules"
+			// stage 2: per-module ValidateGenesis + InitGenesis without the InitChain wrapper
 			os.Remove(filepath.Join(d, "b.dump"))
 			im2 := exec.Command(os.Args[0], "-role", "import2", "-dir", d)
 			outp2, err2 := im2.CombinedOutput()
@@ -518,22 +617,24 @@ func main() {
 				if len(p) != 2 {
 					continue
 				}
-				t.Line("validate/"+p[0], p[1] == "ok", "rt validate %s %s A=%s => %s", p[0], id, strings.ReplaceAll(orDash(a[map[string]string{"auth": "accounts", "pos": "nodes", "application": "apps", "pocketcore": "claims", "gov": "dao"}[p[0]]]), " ", "|"), p[1])
+				t.Line("validate/"+p[0]+"/"+strings.SplitN(p[1], ":", 2)[0], p[1] == "ok", "validate %s %s => %s", p[0], id, p[1])
 			}
 			pb, _ := os.ReadFile(filepath.Join(d, "progress.txt"))
-			prog := strings.TrimSpace(string(pb))
+			stage = orDash(strings.TrimSpace(string(pb)))
 			r2 := "ok"
-			if err2 != nil || prog != "done" {
-				r2 = "died:" + orDash(prog) + ":" + crashClass(string(outp2), err2)
-				stage = "before-" + orDash(prog)
+			if err2 != nil || stage != "done" {
+				r2 = "died:" + stage + ":" + crashClass(string(outp2), err2)
 			}
-			t.Line("initmod/"+strings.SplitN(r2, ":", 2)[0], r2 == "ok", "rt initmod %s A=%s|%s => %s", id, strings.ReplaceAll(orDash(a["apps"]), " ", "|"), strings.ReplaceAll(orDash(a["nodes"]), " ", "|"), r2)
-			res = r2
+			t.Line("initmod/"+strings.SplitN(r2, ":", 3)[0]+"/"+stage, r2 == "ok", "initmod %s => %s", id, r2)
 		}
+		// the state reached: stage = the module that did not complete ("done" when all did)
 		b := readDump(filepath.Join(d, "b.dump"))
 		if len(b) > 0 {
 			for _, c := range components {
-				t.Line(c, a[c] != "-" && a[c] != "", "rt %s %s stage=%s A=%s => B=%s", c, id, stage, strings.ReplaceAll(a[c], " ", "|"), strings.ReplaceAll(b[c], " ", "|"))
+				if c == "typed" {
+					continue
+				}
+				t.Line("cmp/"+c, a[c] != "-" && a[c] != "", "cmp %s %s stage=%s => %s", c, id, stage, orDash(b[c]))
 			}
 		}
 		if !*keep {
